@@ -92,7 +92,7 @@ def decodeIsOriginal : Bool := Mkts.Extracted.Skel.executor_GetTimeFromTicks.con
 
 /-- `GetTimeFromTicks(start, intervalsPerDay, k)` -/
 def decodeTicks (start ipd k : Int) : Mkts.Ticks.Decoded :=
-  if decodeIsOriginal then Mkts.Ticks.getTimeFromTicks Mkts.Ticks.rne start ipd k
+  if decodeIsOriginal then Mkts.Ticks.getTimeFromTicksOld Mkts.Ticks.rne start ipd k
   else Mkts.Ticks.getTimeFromTicksFixed Mkts.Ticks.rne start ipd k
 
 /-- whole seconds from the interval start that `GetTimeFromTicks` reports for ticks `k` -/
